@@ -6,6 +6,7 @@ import atexit
 import contextlib
 import json
 import os
+import select
 import selectors
 import signal
 import subprocess
@@ -322,6 +323,7 @@ class _JSONPipeCommunicator:
         self._read_fd: int
         self._write_fd: int | None
         self._selector: selectors.BaseSelector
+        self._buffer = b""
 
         if not read_pipe.exists():
             os.mkfifo(read_pipe)
@@ -342,17 +344,33 @@ class _JSONPipeCommunicator:
             os.close(self._write_fd)
 
     def read(self) -> str | list[Any] | dict[str, Any] | None:
+        # A message may arrive in pieces (it can be larger than the pipe
+        # buffer), keep what was read until the delimiter has been seen:
+        if (message := self._next_message()) is not None:
+            return message
         events = self._selector.select(timeout=self._timeout)
         for _, mask in events:
             if mask & selectors.EVENT_READ:
-                with os.fdopen(os.dup(self._read_fd), "r", encoding="utf-8") as fd:
-                    buffer = ""
-                    while line := fd.readline():
-                        if line.strip() == self.DELIMITER:
-                            buffer = buffer.strip()
-                            return json.loads(buffer) if buffer else buffer
-                        buffer += line
+                while True:
+                    try:
+                        chunk = os.read(self._read_fd, 65536)
+                    except BlockingIOError:
+                        break
+                    if not chunk:
+                        break
+                    self._buffer += chunk
+                return self._next_message()
         return None
+
+    def _next_message(self) -> str | list[Any] | dict[str, Any] | None:
+        message, found, rest = self._buffer.partition(
+            f"\n{self.DELIMITER}\n".encode()
+        )
+        if not found:
+            return None
+        self._buffer = rest
+        text = message.decode("utf-8").strip()
+        return json.loads(text) if text else text
 
     def write(self, data: str | list[Any] | dict[str, Any]) -> bool:
         class NumpyEncoder(json.JSONEncoder):
@@ -369,9 +387,15 @@ class _JSONPipeCommunicator:
         events = self._selector.select(timeout=self._timeout)
         for _, mask in events:
             if mask & selectors.EVENT_WRITE:
-                os.write(
-                    self._write_fd,
-                    f"{json.dumps(data, cls=NumpyEncoder)}\n{self.DELIMITER}\n".encode(),
+                # The message may be larger than the pipe buffer, a single
+                # write would silently truncate it:
+                message = memoryview(
+                    f"{json.dumps(data, cls=NumpyEncoder)}\n{self.DELIMITER}\n".encode()
                 )
+                while message:
+                    try:
+                        message = message[os.write(self._write_fd, message) :]
+                    except BlockingIOError:
+                        select.select([], [self._write_fd], [], self._timeout)
                 return True
         return False
